@@ -99,7 +99,7 @@ package types
 //@ macro ccDenom(cc) = substr(ccData(cc).Denom, strlen(denomPrefix(ccIBC(cc).sourcePort, ccIBC(cc).sourceChannel)), strlen(ccData(cc).Denom) - strlen(denomPrefix(ccIBC(cc).sourcePort, ccIBC(cc).sourceChannel)))
 
 //@ func (self PayloadAdapter) AdaptPacket(ctx, id, packet) (op, err)
-//@   requires[base] packet != nil
+//@   requires[base] packet != nil && ref(packet) != 0
 //@   sets-post adapt_err = err
 //@   ensures[base]  err == nil ==> op != nil && op.TransferAttributes != nil && taOK(op.TransferAttributes) && op.Payload != nil && payloadOK(op.Payload)
 //@   ensures[base]  op != nil ==> err == nil
@@ -146,6 +146,7 @@ package types
 
 // The adapter controller behind the adapter's router (implemented by the IBC adapter).
 //@ func (self AdapterController) ParsePacket(ccPacket) (result, err)
+//@   requires[base] ref(ccPacket) != 0
 //@   ensures[base] err == nil ==> result != nil && payloadFieldsOK(result.Payload) && !isnil(result.Coin.Amount)
 //@   ensures[base] err == nil ==> fresh(result)
 //@   ensures[C07,C01,C03,C18] ccIsIBC(ccPacket) && !ccForOrb(ccPacket) ==> err != nil && rootErr(err) == core.ErrNoOrbiterPacket
